@@ -117,7 +117,7 @@ def gen(ctx):
 
 
 def run(ctx):
-    for k in range(ctx.n(14, 140)):
+    for k in range(ctx.n(22, 200)):
         check_case(ctx, gen(ctx))
     ctx.lean.flush()
 
